@@ -10,14 +10,16 @@ Ltac i32c := unfold i32; split; vm_compute; discriminate.
 
 (* ---- non-vacuity: the trap-free hypotheses are met by ordinary operands ---- *)
 Example c03_muldiv_noround_nonvacuous :     (* first row of skrifa's own unit test, computed with FT_MulDiv_No_Round *)
-  sk_mul_div_no_round true (-326) (-11474) 9942 = Some 376 /\ ft_muldiv_no_round (-326) (-11474) 9942 = 376.
-Proof. split; reflexivity. Qed.
+  wrap_free_muldiv_noround (-326) (-11474) 9942 /\
+  sk_mul_div_no_round false (-326) (-11474) 9942 = Some 376 /\ ft_muldiv_no_round (-326) (-11474) 9942 = 376.
+Proof. split; [vm_compute; discriminate | split; reflexivity]. Qed.
 Example c03_round_modes_nonvacuous :        (* SROUND state (threshold 40, phase 16, period 64), distance -1000/64 px *)
-  map (fun m => sk_rs_round true m 40 16 64 (-1000)) [0; 1; 2; 3; 4; 5; 6; 7]
+  wrap_free_round 6 40 16 64 (-1000) /\
+  map (fun m => sk_rs_round false m 40 16 64 (-1000)) [0; 1; 2; 3; 4; 5; 6; 7]
   = map (fun m => Some (ft_rs_round m 40 16 64 (-1000))) [0; 1; 2; 3; 4; 5; 6; 7]
   /\ map (fun m => ft_rs_round m 40 16 64 (-1000)) [0; 1; 2; 3; 4; 5; 6; 7]
      = [-1024; -992; -992; -960; -1024; -1000; -1040; -1040].
-Proof. split; reflexivity. Qed.
+Proof. split; [vm_compute; discriminate | split; reflexivity]. Qed.
 Example c03_divfix_fits_nonvacuous :        (* 12 ppem at 2048 upem: the scale factor 0x6000 *)
   i32 (ft_divfix (12 * 64) 2048) /\ sk_compute_scale (12 * 64) 2048 = 24576.
 Proof. split; [i32c | reflexivity]. Qed.
@@ -38,37 +40,39 @@ Example ftmuldiv_refuted : exists a b c, i32 a /\ i32 b /\ i32 c /\
   sk_mul_div a b c = 1 /\ ft_muldiv a b c = 4611686014132420609.
 Proof. exists 2147483647, 2147483647, 1. split; [i32c|]. split; [i32c|]. split; [i32c|]. split; reflexivity. Qed.
 
-(* ---- refuted: the release (wrapping) reading of the kernels with unchecked i32 arithmetic.
-        On every one of these inputs the overflow-checks profile traps (None). ---- *)
-Example muldiv_noround_wrapping_refuted : exists a b c, i32 a /\ i32 b /\ i32 c /\
-  sk_mul_div_no_round true a b c = None /\
+(* ---- refuted: outside the wrap-free domain (an intermediate i32 result wraps: [sk_* true] = None) the
+        code diverges from FreeType's 64-bit arithmetic, even modulo 2^32.  Replayed on the real skrifa
+        kernels by the harness ("witnesses"). ---- *)
+Example muldiv_noround_refuted : exists a b c, i32 a /\ i32 b /\ i32 c /\
+  ~ wrap_free_muldiv_noround a b c /\
   sk_mul_div_no_round false a b c = Some 1073741824 /\ ft_muldiv_no_round a b c = -1073741824.
 Proof.
-  exists (-2147483648), 2, 4. split; [i32c|]. split; [i32c|]. split; [i32c|]. repeat split; reflexivity.
+  exists (-2147483648), 2, 4. split; [i32c|]. split; [i32c|]. split; [i32c|].
+  split; [intro H; apply H; reflexivity|]. split; reflexivity.
 Qed.
 (* the interpreter's DIV instruction computes mul_div_no_round(a, 64, b) on values taken from the stack *)
-Example div_instruction_wrapping_refuted :
+Example div_instruction_refuted :
   sk_mul_div_no_round true (-2147483648) 64 128 = None /\
   sk_mul_div_no_round false (-2147483648) 64 128 = Some 1073741824 /\
   ft_muldiv_no_round (-2147483648) 64 128 = -1073741824.
 Proof. repeat split; reflexivity. Qed.
-Example round_grid_wrapping_refuted :        (* Grid, DoubleGrid, UpToGrid at d = i32::MAX *)
+Example round_grid_refuted :        (* Grid, DoubleGrid, UpToGrid at d = i32::MAX *)
   map (fun m => (sk_rs_round true m 0 0 64 2147483647, sk_rs_round false m 0 0 64 2147483647,
                  ft_rs_round m 0 0 64 2147483647)) [0; 2; 4]
   = [(None, Some 0, 2147483648); (None, Some 0, 2147483648); (None, Some 0, 2147483648)].
 Proof. reflexivity. Qed.
-Example round_half_grid_wrapping_refuted :   (* HalfGrid at d = i32::MIN *)
+Example round_half_grid_refuted :   (* HalfGrid at d = i32::MIN *)
   sk_rs_round true 1 0 0 64 (-2147483648) = None /\
   sk_rs_round false 1 0 0 64 (-2147483648) = Some 0 /\ ft_rs_round 1 0 0 64 (-2147483648) = -2147483680.
 Proof. repeat split; reflexivity. Qed.
-Example round_super_wrapping_refuted :       (* Super and Super45, threshold 40, at d = i32::MAX *)
+Example round_super_refuted :       (* Super and Super45, threshold 40, at d = i32::MAX *)
   map (fun m => (sk_rs_round true m 40 0 64 2147483647, sk_rs_round false m 40 0 64 2147483647,
                  ft_rs_round m 40 0 64 2147483647)) [6; 7]
   = [(None, Some 0, 2147483648); (None, Some 0, 2147483648)].
 Proof. reflexivity. Qed.
-(* period 0: Super45 divides by zero on both sides (skrifa panics in every profile; C: undefined) *)
-Example round_super45_period0_traps : sk_rs_round true 7 0 0 0 100 = None /\ sk_rs_round false 7 0 0 0 100 = None.
-Proof. split; reflexivity. Qed.
+(* period 0: Super45 divides by zero (skrifa still panics: plain `/`; C: undefined) *)
+Example round_super45_period0_traps : sk_rs_round false 7 0 0 0 100 = None.
+Proof. reflexivity. Qed.
 
 (* ---- refuted: Fixed::round (half up) is not FT_RoundFix (half away from zero) on negative ties ---- *)
 Example ftroundfix_refuted : fx_round 32 16 (-32768) = 0 /\ ft_roundfix (-32768) = -65536.
